@@ -73,7 +73,7 @@ void load_song(Song& song, const std::string& tok, const std::string& dir)
 		std::string path = dir + "/" + name;
 		FILE* fp = fopen(path.c_str(), "wb");
 		if(!fp) throw std::runtime_error("tmpfile");
-		fwrite(mml.data(), 1, mml.size(), fp);
+		if(!mml.empty()) fwrite(mml.data(), 1, mml.size(), fp);
 		fclose(fp);
 		MML_Input input(&song);
 		try { input.open_file(path); } catch(...) { unlink(path.c_str()); throw; }
